@@ -12,7 +12,7 @@ Lemma gen_cleanup_ok :
   cleanup_steps = [CPathRestore; CEndPatch "imp.load_source"; CEndPatch "importlib.util.spec_from_file_location";
                    CEndPatch "importlib.util.module_from_spec"; CMetaRemove false; CModules; CCaptureUndo]
   /\ ctx_restored_in_finally = true /\ pep517_chdir_restored_in_finally = true
-  /\ extractor_state_fresh_per_analysis = true.
+  /\ extractor_state_fresh_per_analysis = true /\ archive_errors_cover_analysis = true.
 Proof. repeat split. Qed.
 
 (* every begin_patch is ended by the finally block, every context patch by the context manager *)
@@ -97,7 +97,8 @@ Proof. unfold start_renames. change extractor_state_fresh_per_analysis with true
 Lemma failure_is_metadata_failure st p : o_escaped (fst (analyse st p)) = false.
 Proof.
   unfold analyse. destruct (pj_kind p) as [|raises].
-  - destruct (run_ops _ _ _ _ _) as [[[s2 seen] reads] raised]. destruct (run_cleanup _ _ _ _ _) as [s3 cr]. reflexivity.
+  - destruct (run_ops _ _ _ _ _) as [[[s2 seen] reads] raised]. destruct (run_cleanup _ _ _ _ _) as [s3 cr].
+    cbn [fst o_escaped]. change archive_errors_cover_analysis with true. now rewrite andb_false_r.
   - cbn [fst o_escaped]. change pep517_failure_wrapped with true. now rewrite andb_false_r.
 Qed.
 
@@ -122,28 +123,28 @@ Definition st0 : pstate := mkP "/work" ["/venv/lib/site-packages"] [] [] [] fals
 
 (* alpha: imports its helper, then pops the setup dir off sys.path itself (micropython-lib idiom) *)
 Definition alpha : project :=
-  mkProj 1 KSetupPy "alpha" "/work/alpha" "/alpha/" [("_about", "/alpha/")] []
+  mkProj 1 KSetupPy "alpha" "/work/alpha" "/alpha/" [("_about", "/alpha/")] [] false
          [OpImport "_about"; OpPathPop0] EReturn.
 Definition beta : project :=
-  mkProj 2 KSetupPy "beta" "/work/beta" "/beta/" [("_about", "/beta/")] [] [OpImport "_about"] EReturn.
+  mkProj 2 KSetupPy "beta" "/work/beta" "/beta/" [("_about", "/beta/")] [] false [OpImport "_about"] EReturn.
 Definition broken : project :=
-  mkProj 3 (KPep517 true) "broken" "/work/broken" "" [] [] [] EReturn.
+  mkProj 3 (KPep517 true) "broken" "/work/broken" "" [] [] false [] EReturn.
 Definition raising : project :=
-  mkProj 4 KSetupPy "r" "/work/r" "/r/" [("_about", "/r/")] [] [OpImport "_about"; OpChdir "pkg"] ERaise.
+  mkProj 4 KSetupPy "r" "/work/r" "/r/" [("_about", "/r/")] [] false [OpImport "_about"; OpChdir "pkg"] ERaise.
 (* a script that ADDS a sys.path entry, and a later project with the same fake root that relies on it *)
 Definition ins_a : project :=
-  mkProj 5 KSetupPy "a/i-1.0" "/work/a/i-1.0" "/i-1.0/" [("hh", "/i-1.0/src")] []
+  mkProj 5 KSetupPy "a/i-1.0" "/work/a/i-1.0" "/i-1.0/" [("hh", "/i-1.0/src")] [] false
          [OpPathInsert "/i-1.0/src"; OpImport "hh"] EReturn.
 Definition ins_b : project :=
-  mkProj 6 KSetupPy "b/i-1.0" "/work/b/i-1.0" "/i-1.0/" [("hh", "/i-1.0/src")] []
+  mkProj 6 KSetupPy "b/i-1.0" "/work/b/i-1.0" "/i-1.0/" [("hh", "/i-1.0/src")] [] false
          [OpImport "hh"] EReturn.
 (* a script that renames VERSION.in to VERSION and reads it; then a project that reads its own VERSION
    while also shipping a VERSION.in template *)
 Definition ren_a : project :=
-  mkProj 7 KSetupPy "ra" "/work/ra" "/ra/" [] ["VERSION.in"]
+  mkProj 7 KSetupPy "ra" "/work/ra" "/ra/" [] ["VERSION.in"] false
          [OpRename "VERSION.in" "VERSION"; OpRead "VERSION"] EReturn.
 Definition ren_b : project :=
-  mkProj 8 KSetupPy "rb" "/work/rb" "/rb/" [] ["VERSION"; "VERSION.in"] [OpRead "VERSION"] EReturn.
+  mkProj 8 KSetupPy "rb" "/work/rb" "/rb/" [] ["VERSION"; "VERSION.in"] false [OpRead "VERSION"] EReturn.
 
 Example frame_nontrivial :
   quiescent st0 = true
